@@ -318,6 +318,17 @@ func WithStateRootFlipped(blk *types.Block) *types.Block {
 	return bad
 }
 
+// DecoyChild returns a block that names parent as its previous block but claims a number gap beyond parent+1: what
+// anybody who knows the parent's hash can send before the parent itself arrives.
+func DecoyChild(parent *types.Block, gap uint64) *types.Block {
+	d := CloneBlock(parent)
+	d.Header.PrevBlockHash = parent.BlockHash()
+	d.Header.BlockNo = parent.BlockNo() + 1 + gap
+	d.Header.Timestamp++
+	rehash(d)
+	return d
+}
+
 // WithExtraTx returns a copy of blk with tx appended (tx root recomputed).
 func WithExtraTx(blk *types.Block, tx *types.Tx) *types.Block {
 	bad := CloneBlock(blk)
